@@ -72,7 +72,7 @@ def structure_invariants(out, sub, sa, tag):
 def run(case):
     out = Outcome()
     sub = "history"
-    f = drive.vector_function([drive.fit_to_box(drive.driver_function(case["dim"], case["fseed"]), case["a"], case["b"])])
+    f = drive.vector_function([drive.case_function(case)])
     sa, op = drive.build_dw(case, f)
     st_ = dict(before=None, strict=0, ties=0, allsel=0, rot=0, steps=0, raised=0, lmax0=None)
 
@@ -158,6 +158,7 @@ def run(case):
         out.cls("lmax-raised")
     if st_.get("raised2"):
         out.cls("lmax-raised-by>=2-in-one-step")
+    out.cls(drive.scale_class(case))
     out.cls("version=%d" % case["version"], "mode=%d" % case["mode"])
     if case.get("legs"):
         out.cls("history-cut-into-%d-runs" % min(len(case["legs"]) + 1, 4))
@@ -168,7 +169,7 @@ def run(case):
 
 
 def strategy(tier):
-    return drive.st_dw_case(tier=tier)
+    return drive.st_dw_case(tier=tier, scales=True)
 
 
 def selftest():
